@@ -2636,7 +2636,7 @@ def normal_form(fn, consts=None, helpers=None, methods=None):
            defaults, tuple(nz.exo(d, {}) for d in fn.decorator_list))
     eff, _ = nz.block(_body(fn), {}, ())
     is_gen = any(isinstance(x, (ast.Yield, ast.YieldFrom)) for x in ast.walk(fn))
-    return (sig, _renumber(_prune_evals(_drop_dead_binds(_inline_single_use(_drop_alias_binds(tuple(strip_tail(eff, "return")) if not is_gen else tuple(eff)))))))
+    return (sig, _renumber(_sink_fresh_binds(_prune_evals(_drop_dead_binds(_inline_single_use(_drop_alias_binds(tuple(strip_tail(eff, "return")) if not is_gen else tuple(eff))))))))
 
 
 def _int_const(x):
@@ -3155,6 +3155,60 @@ def _inline_single_use(effs):
         effs_ref = [effs]
         effs = rec(effs)
     return effs
+
+
+def _sink_fresh_binds(effs):
+    """`bind v = <a fresh empty container or a constant>` (v numbered, bound once) happens right before the first effect of its list that mentions v: where
+    exactly an empty list is created before it is first looked at cannot be observed"""
+    def is_var(x):
+        return isinstance(x, tuple) and len(x) == 2 and x[0] == "v" and isinstance(x[1], int)
+
+    def fresh(val):
+        if isinstance(val, tuple) and val:
+            if val[0] in ("List", "Dict", "Set", "Tuple") and len(val) == 2 and val[1] == ():
+                return True
+            if val[0] == "k":
+                return True
+            if val[0] == "prod" and len(val) == 4 and val[2] == ():
+                return True
+            if val[0] == "call" and len(val) == 4 and val[1] in (("n", "set"), ("n", "dict"), ("n", "list"), ("n", "OrderedDict")) and val[2] == () and val[3] == ():
+                return True
+        return False
+
+    def contains(x, v):
+        if isinstance(x, tuple):
+            return x == v or any(contains(y, v) for y in x)
+        return False
+    counts = {}
+
+    def count(x):
+        if isinstance(x, tuple):
+            if len(x) == 3 and x[0] == "bind" and is_var(x[1]):
+                counts[x[1][1]] = counts.get(x[1][1], 0) + 1
+            for y in x:
+                count(y)
+    count(effs)
+
+    def rec(x):
+        if not isinstance(x, tuple):
+            return x
+        x = tuple(rec(y) for y in x)
+        if x and all(isinstance(y, tuple) and y and isinstance(y[0], str) for y in x):
+            out = list(x)
+            i = len(out) - 1
+            while i >= 0:
+                b = out[i]
+                if len(b) == 3 and b[0] == "bind" and is_var(b[1]) and counts.get(b[1][1]) == 1 and fresh(b[2]):
+                    j = i + 1
+                    while j < len(out) and not contains(out[j], b[1]):
+                        j += 1
+                    if j > i + 1:
+                        out.insert(j, b)     # before the first effect that mentions it (or at the end)
+                        del out[i]
+                i -= 1
+            x = tuple(out)
+        return x
+    return rec(effs)
 
 
 def _drop_alias_binds(effs):
